@@ -281,4 +281,36 @@ func runStopRace(w *tr.Writer, seed uint64, idx int) {
 	}
 	rec.mu.Unlock()
 	flushFails(w, rec)
+	// the stopped client: a further Stop and a further Dial are refused and touch no descriptor -- the numbers of
+	// the closed pollers are the application's by now
+	var later []*os.File
+	for i := 0; i < 6; i++ {
+		if f, e := os.Open("/dev/null"); e == nil {
+			later = append(later, f)
+		}
+	}
+	_ = cli.Stop()
+	dialed := make(chan error, 1)
+	go func() { _, e := cli.Dial(ln.Addr().Network(), ln.Addr().String()); dialed <- e }()
+	select {
+	case e := <-dialed:
+		if e == nil {
+			w.Fail("lifecycle", "dial-on-stopped-client", "Client.Dial on a stopped client returned a connection")
+		}
+	case <-time.After(time.Second):
+		w.Fail("engine-start", "dial-on-stopped-client-blocks", "Client.Dial on a stopped client had not returned after 1 s")
+	}
+	for _, f := range later {
+		if _, e := f.Stat(); e != nil {
+			w.Fail("fd-not-owned", "stranger-closed", fmt.Sprintf("a descriptor opened by the application after Client.Stop had returned was closed by a later call on the stopped client: %v", e))
+		}
+		f.Close()
+	}
+	rec.mu.Lock()
+	for fd, kindOf := range rec.owned {
+		w.Fail("fd-leak", kindOf, fmt.Sprintf("descriptor %d (%s) created by a call on the stopped client and left open", fd, kindOf))
+	}
+	rec.mu.Unlock()
+	flushFails(w, rec)
+	w.Hist("stoprace-stopped-client-calls")
 }
